@@ -10,7 +10,10 @@ Local Open Scope N_scope.
 (* (third conjunct: the readiness probes of tcp.rs / framed_tcp.rs never close the descriptor they
    borrow for the keepalive option, on any path -- what "pending() = Ready" means for the model) *)
 Theorem C03_gen_obligation :
-  layout_ok gen_layout = true /\ READY_TO_WRITE_CONST_TRUE = true /\ KEEPALIVE_SOCKET_ALWAYS_FORGOTTEN = true.
+  layout_ok gen_layout = true /\ READY_TO_WRITE_CONST_TRUE = true /\ KEEPALIVE_SOCKET_ALWAYS_FORGOTTEN = true /\
+  (* connect_sync_with is connect_with followed by nothing but the 1 ms is_ready() poll that the
+     theorem C03_connect_sync_truthful_outside_K1 speaks about *)
+  CONNECT_SYNC_LOOP_SHAPE_OK = true.
 Proof. repeat split; vm_compute; reflexivity. Qed.
 
 (* For EVERY script: any sequence of controller calls and poll events, any answers of the adapter
